@@ -9,6 +9,10 @@ ref(cls, t) is the instance expression the DOCUMENTED naming / precedence rule s
 package of the type, then the derive package); it is written here independently of gombok's summoning code."""
 
 CLASSES = ["eq", "ord", "hash", "monoid", "clone"]
+# per-package overriding instances declared in the working package for NON-leaf / library types (set by go_source):
+#   "slice": a generic local instance function EqSlice / CloneSlice (README 6.1: overrides eq.Slice / clone.Slice)
+#   "dur": "Duration" | "TimeDuration" - a local instance for time.Duration under its short or package-qualified name
+OVER = {}
 TC = {"eq": "Eq", "ord": "Ord", "hash": "Hashable", "monoid": "Monoid", "clone": "Clone"}
 
 
@@ -73,6 +77,10 @@ def ref(cls, t, C):
         if t[1] in ("Code", "Both"):
             return "vS%s%s" % (T, t[1])  # silent twin of other.XCode / of the local XBoth that overrides other.XBoth
         return {"eq": "eq.Given[%s]()", "ord": "ord.Given[%s]()", "hash": "hash.Number[%s]()", "clone": "clone.Given[%s]()"}[cls] % g
+    if k == "slice" and OVER.get("slice") and cls in ("eq", "clone"):
+        return "vS%sSlice(%s)" % (T, ref(cls, t[1], C))
+    if k == "dur" and OVER.get("dur") and cls == "eq":
+        return "vSEqDur"
     if k in ("slice", "seq", "opt", "ptr", "map"):
         inner = ref(cls, t[1], C)
         ig = gotype(t[1])
@@ -94,14 +102,15 @@ def ref(cls, t, C):
     if k == "struct":
         n = t[1]
         targs = t[2] if len(t) > 2 else ""
+        # (reference functions exist for the instantiation at int only and carry no type arguments in their names)
         if cls == "eq":
-            return "eq.New(vRefEq_%s%s)" % (n, targs)
+            return "eq.New(vRefEq_%s)" % n
         if cls == "ord":
-            return "ord.New(eq.New(vRefEq_%s%s), vRefLess_%s%s)" % (n, targs, n, targs)
+            return "ord.New(eq.New(vRefEq_%s), vRefLess_%s)" % (n, n)
         if cls == "hash":
-            return "hash.New(eq.New(vRefEq_%s%s), func(%s%s) uint32 { return 0 })" % (n, targs, n, targs)
+            return "hash.New(eq.New(vRefEq_%s), func(%s%s) uint32 { return 0 })" % (n, n, targs)
         if cls == "monoid":
-            return "monoid.New(vRefEmpty_%s%s, vRefCombine_%s%s)" % (n, targs, n, targs)
+            return "monoid.New(vRefEmpty_%s, vRefCombine_%s)" % (n, n)
         return "clone.Given[%s%s]()" % (n, targs)
     base = {
         "eq": {"int": "eq.Given[int]()", "string": "eq.String", "bool": "eq.Given[bool]()", "dur": "eq.Given[time.Duration]()"},
@@ -116,6 +125,10 @@ def ref(cls, t, C):
 def candidates(t):
     """-> the overridable leaf types below t as (type name, declared in the working package, declared in the type's package)"""
     k = t[0]
+    if k == "slice" and OVER.get("slice"):
+        return [("Slice", True, False)] + candidates(t[1])
+    if k == "dur" and OVER.get("dur"):
+        return [(OVER["dur"], True, False)]
     if k in ("slice", "seq", "opt", "ptr", "map"):
         return candidates(t[1])
     if k == "named":
@@ -310,7 +323,19 @@ def special_structs():
                         value=False, tparams=[], recursive_flag=True)
     # type parameters used in another order than declared
     s["Rev"] = dict(name="Rev", fields=[("right", ("tparam", "B")), ("left", ("tparam", "A"))], classes=["eq", "ord", "clone"], value=True, tparams=["A", "B"])
-    return s, ["Node", "Tree", "Big", "Pair", "Phantom", "Leaf", "Holder", "Prec", "PrecM", "W21", "W22", "P22", "Mixed", "Holder2", "Rev"]
+    # a generic struct instantiated inside another struct
+    s["UsesPair"] = dict(name="UsesPair", fields=[("n", ("int",)), ("p", ("struct", "Pair", "[int, int]")), ("ps", ("slice", ("struct", "Pair", "[int, int]"))), ("r", ("struct", "Rev", "[int, int]"))],
+                         classes=["eq", "ord", "clone"], value=True, tparams=[])
+    return s, ["Node", "Tree", "Big", "Pair", "Phantom", "Leaf", "Holder", "Prec", "PrecM", "W21", "W22", "P22", "Mixed", "Holder2", "Rev", "UsesPair"]
+
+
+def override_structs():
+    """structs for the packages that declare local instances for library / composite types (slices, time.Duration)"""
+    s = {}
+    s["OS1"] = dict(name="OS1", fields=[("xs", ("slice", ("int",))), ("n", ("int",)), ("d", ("dur",)), ("ys", ("slice", ("slice", ("string",))))], classes=["eq", "clone"], value=True, tparams=[])
+    s["OS2"] = dict(name="OS2", fields=[("D", ("dur",)), ("O", ("opt", ("dur",))), ("S", ("slice", ("dur",)))], classes=["eq"], value=False, tparams=[])
+    s["OS3"] = dict(name="OS3", fields=[("inner", ("struct", "OS1")), ("p", ("ptr", ("slice", ("int",))))], classes=["eq", "clone"], value=True, tparams=[])
+    return s, ["OS1", "OS2", "OS3"]
 
 
 def inst_args(st, cls, C):
@@ -346,15 +371,50 @@ def subst(t, tp):
     return t
 
 
-def go_source(pkg, structs, order):
+OVER_SLICE = '''
+// local generic instances: they override eq.Slice / clone.Slice of the derive package (README 6.1) and are observably different
+// (slices are equal when they have the same length) resp. count their uses
+func EqSlice[T any](e fp.Eq[T]) fp.Eq[[]T] {
+	return eq.New(func(a, b []T) bool { vHit("EqSlice"); return len(a) == len(b) })
+}
+
+func CloneSlice[T any](c fp.Clone[T]) fp.Clone[[]T] {
+	return clone.New(func(a []T) []T { vHit("CloneSlice"); return clone.Slice(c).Clone(a) })
+}
+'''
+OVER_DUR = '''
+// a local instance for time.Duration under its %(form)s name: durations are equal when they agree modulo 10ns
+var Eq%(name)s fp.Eq[time.Duration] = eq.New(func(a, b time.Duration) bool { vHit("Eq%(name)s"); return a%%10 == b%%10 })
+'''
+SILENT_OVER = '''
+func vSEqSlice[T any](e fp.Eq[T]) fp.Eq[[]T] { return eq.New(func(a, b []T) bool { return len(a) == len(b) }) }
+func vSCloneSlice[T any](c fp.Clone[T]) fp.Clone[[]T] { return clone.Slice(c) }
+var vSEqDur fp.Eq[time.Duration] = eq.New(func(a, b time.Duration) bool { return a%10 == b%10 })
+'''
+
+
+def go_source(pkg, structs, order, over=None):
+    OVER.clear()
+    OVER.update(over or {})
+    try:
+        return _go_source(pkg, structs, order)
+    finally:
+        OVER.clear()
+
+
+def _go_source(pkg, structs, order):
     out = [PRELUDE % dict(pkg=pkg), local_overrides()]
+    if OVER.get("slice"):
+        out.append(OVER_SLICE)
+    if OVER.get("dur"):
+        out.append(OVER_DUR % dict(name=OVER["dur"], form="short" if OVER["dur"] == "Duration" else "package-qualified"))
     reg = ["package %s\n" % pkg, 'import (\n\t"time"\n\n\t"scratch/other"\n\n\t"github.com/csgura/fp"\n\t"github.com/csgura/fp/clone"\n\t"github.com/csgura/fp/eq"\n'
            '\t"github.com/csgura/fp/hash"\n\t"github.com/csgura/fp/lazy"\n\t"github.com/csgura/fp/monoid"\n\t"github.com/csgura/fp/ord"\n)\n',
            "var _ time.Duration\nvar _ = lazy.Done[int]\nvar _ = clone.Given[int]\nvar _ = hash.String\nvar _ = ord.Given[int]\nvar _ = eq.String\nvar _ = monoid.String\nvar _ fp.Unit\nvar _ other.Plain\n",
            "func vCounters() map[string]int {\n\tm := map[string]int{}\n\tfor k, v := range vUsed {\n\t\tm[k] = v\n\t}\n\tfor k, v := range other.Used {\n\t\tm[k] = v\n\t}\n\treturn m\n}\n",
            "var vRegistry = []vEntry{}\n",
            SILENT % dict(N="MyInt", Q="MyInt") + SILENT % dict(N="Code", Q="other.Code") + SILENT % dict(N="Both", Q="other.Both"),
-           "var vSMonoidInt fp.Monoid[int] = monoid.New(func() int { return 0 }, func(a, b int) int { return a + b })\n"]
+           "var vSMonoidInt fp.Monoid[int] = monoid.New(func() int { return 0 }, func(a, b int) int { return a + b })\n", SILENT_OVER]
     inits = []
     for name in order:
         st = structs[name]
@@ -427,5 +487,8 @@ def cands_deep(cls, t, structs, seen):
     if k in ("slice", "seq", "opt", "ptr", "map"):
         if cls == "monoid" and k in ("slice", "seq", "map"):
             return []       # MergeSlice / MergeSeq / MergeGoMap take no element instance
-        return cands_deep(cls, t[1], structs, seen)
+        own = [("Slice", True, False)] if (k == "slice" and OVER.get("slice") and cls in ("eq", "clone")) else []
+        return own + cands_deep(cls, t[1], structs, seen)
+    if k == "dur":
+        return candidates(t) if cls == "eq" else []
     return candidates(t)
